@@ -72,6 +72,8 @@ def job_core_nonce(ses, proto):
 def run(ses):
     jobs = [(job_builder_nonce, (p, pre)) for p in LOCAL for pre in (False, True)] + [(job_core_nonce, (p,)) for p in LOCAL]
     jobs += [(c13.job_build, (p,)) for p in LOCAL]           # frame condition: build() leaves every builder field as it was
+    from .. import coreapi
+    jobs.append((coreapi.job_key_ctors, ()))        # PasetoNonce::from(&Key<N>) keeps every byte of the draw (and the key wrappers keep theirs)
     run_jobs(ses, jobs)
     ses.trusted_base = TRUSTED
     ses.assumptions = ['histories of any length follow from the per-build statement (fresh draw per build, nothing retained) and the RNG contract',
